@@ -96,13 +96,14 @@ DocRefsResolve(F) == \A i \in DOMAIN F.nodes : \A j \in DOMAIN F.nodes[i].kws : 
 DocHeaderOK(F) == F.isObject /\ F.version # "" /\ F.hasInfo /\ F.hasTitle /\ F.hasInfoVersion /\ F.hasPaths
 
 \* path parameters of one operation against the template it sits under: "ok" or the class of the mismatch
+CountIn(q, v) == Cardinality({i \in DOMAIN q : q[i] = v})
 PathDecl(op) == SelectSeq(op.params, LAMBDA p : p["in"] = "path")
 ParamClass(tmpl, op) ==
   LET names == ParamNames(tmpl)
       decl  == PathDecl(op)
       dn    == [i \in DOMAIN decl |-> decl[i].abs] IN
-  IF \E i \in DOMAIN names : names[i] \notin SeqToSet(dn) THEN "template-param-undeclared"
-  ELSE IF \E i \in DOMAIN dn : dn[i] \notin SeqToSet(names) THEN "path-param-not-in-template"
+  IF \E i \in DOMAIN names : CountIn(dn, names[i]) < CountIn(names, names[i]) THEN "template-param-undeclared"
+  ELSE IF \E i \in DOMAIN dn : CountIn(names, dn[i]) < CountIn(dn, dn[i]) THEN "path-param-not-in-template"
   ELSE IF \E i \in DOMAIN decl : ~decl[i].required THEN "path-param-not-required"
   ELSE IF dn # names THEN "path-params-order" ELSE "ok"
 SchemeNames(F) == {F.schemes[i].name : i \in DOMAIN F.schemes}
